@@ -58,7 +58,7 @@ fn render2822(d: NaiveDate, t: NaiveTime, off: FixedOffset) -> Buf<32> {
     render_wall(d, t, off, &[Item::Fixed(Fixed::RFC2822)])
 }
 
-// @ob tier=quick timeout=900 mem=14
+// @ob tier=quick timeout=900 mem=8
 // @desc RFC 2822 writer, date part: for every wall-clock date with year 0..=9999 (time 12:34:56, offset +0000) the text is `Www, D Mon YYYY 12:34:56 +0000` with the weekday of the independent reference calendar, the day without leading zero, the English month abbreviation and the four-digit year
 // @bounds all dates with year 0..=9999; time of day and offset concrete
 // @funcs write_rfc2822 (weekday, day, month, year), locales::{short_weekdays, short_months}
@@ -90,7 +90,7 @@ fn c11_writer_date_part() {
     kani::cover!(m == 2 && dd == 29);
 }
 
-// @ob tier=quick timeout=900 mem=14
+// @ob tier=quick timeout=900 mem=8
 // @desc RFC 2822 writer, time / offset part: on the fixed wall-clock date Sun, 8 Jul 2001, for every time of day (second 60 for a leap second) and every whole-minute offset the text ends with HH:MM:SS +HHMM / -HHMM with exact fields
 // @bounds all times of day incl. leap fraction on second 59 x all whole-minute offsets in (-24h, 24h); date concrete
 // @funcs write_rfc2822 (time), OffsetFormat::format
